@@ -392,10 +392,10 @@ class World(object):
         self.accounts = []
         self.server = Server(self)
         for i in range(n):
-            a = Account(self, "abcd"[i], "4915%03d%05d" % (World.SEQ % 1000, i + 1), autotrust=bool(autotrust and autotrust[i]))
+            a = Account(self, "abcd"[i], "4915%07d%d" % (World.SEQ, i + 1), autotrust=bool(autotrust and autotrust[i]))
             self.accounts.append(a)
             self.server.register(a)
-        self.gjid = "4915%03d00001-1500000000@g.us" % (World.SEQ % 1000)
+        self.gjid = "4915%07d1-1500000000@g.us" % World.SEQ
         if group:
             self.server.groups[self.gjid] = [a.jid for a in self.accounts]
         for a in self.accounts:
@@ -604,9 +604,16 @@ class World(object):
                 self.do_deliver(name, fault_for(name, self.head(name, j)) if fault_for else None, j)
 
     def close(self):
+        """Drop the stacks and the accounts' profile directories (thousands of worlds are built in one run)."""
+        import shutil
+        from yowsup.common.tools import StorageTools
         for a in self.accounts:
             a.stack = None
             a.profile = None
+            try:
+                shutil.rmtree(os.path.dirname(StorageTools.constructPath(a.phone, "axolotl.db")), ignore_errors=True)
+            except Exception:
+                pass
 
 
 class Diverged(Exception):
